@@ -63,6 +63,24 @@ class BudgetExceeded(BaseException):
     pass
 
 
+def build_exceptions(case):
+    """the `exceptions` argument: a single class, the flat tuple of the listed classes, or - case['pack'] - an arbitrarily
+    nested tuple (ints index case['spec'], lists are tuples; () and ((),) list nothing at all).  except / isinstance accept
+    nested tuples and flatten them."""
+    spec = [excs.cls_of(p) for p in case['spec']]
+    if case.get('pack') is not None:
+        def build(t):
+            if isinstance(t, int):
+                if not 0 <= t < len(spec):
+                    raise MalformedCase('pack index %r' % (t,))
+                return spec[t]
+            return tuple(build(x) for x in t)
+        if not isinstance(case['pack'], list):
+            raise MalformedCase('pack must be a list')
+        return build(case['pack'])
+    return spec[0] if case.get('single') and len(spec) == 1 else tuple(spec)
+
+
 def run_case(case):
     from pedantic.decorators.fn_deco_retry import retry, retry_func
     events = []
@@ -89,8 +107,7 @@ def run_case(case):
 
     real_sleep = time.sleep
     time.sleep = lambda s: events.append(3)
-    spec = [excs.cls_of(p) for p in case['spec']]
-    exceptions = spec[0] if case.get('single') and len(spec) == 1 else tuple(spec)
+    exceptions = build_exceptions(case)
     try:
         try:
             if case['mode'] == 'func':
@@ -147,8 +164,7 @@ def run_seq(case):
     script.__name__ = 'script'
     for call in case['calls']:
         validate_outcomes(call['outs'] + [call['tail']])
-    spec = [excs.cls_of(p) for p in case['spec']]
-    exceptions = spec[0] if case.get('single') and len(spec) == 1 else tuple(spec)
+    exceptions = build_exceptions(case)
     real_sleep = time.sleep
     results = []
     try:
